@@ -111,4 +111,10 @@ def Op.toStep : Op → Forest.HStep
 def Op.args (o : Op) : List Nat := o.toStep.args
 def Op.targets (f : Forest) (o : Op) : List Nat := o.toStep.targets f
 
+/-- No call of the history (run from `f`) has `h` among the handles it may overwrite, each call
+    judged in the state it is issued in. -/
+def Forest.neverTarget (h : Nat) : Forest → List Op → Prop
+  | _, [] => True
+  | f, o :: os => h ∉ o.targets f ∧ Forest.neverTarget h (f.step o) os
+
 end XotModel
